@@ -72,9 +72,26 @@ def seeded():
         out.append(f"| {m['id']} | {m['property']} | {m['needs'].replace('|','/')} | {m.get('caught_by','?')} | {m.get('how','').replace('|','/')} |")
     return '\n'.join(out)
 
+def sweeps():
+    try:
+        rows = json.load(open(os.path.join(HERE, 'sweeps.json')))
+    except Exception:
+        return ''
+    out = ['\n### Mutation sweeps (hardening by agents that know the checks)\n',
+           'Separately from the seeded changes above, sub-agents ran systematic mutation sweeps over the anchored functions of a property '
+           '(mechanical operator/constant/branch mutants plus hand-picked maintainer slips), kept the mutants the pinned unit tests do not kill, '
+           'ran the quick check on each, decided for every survivor whether it breaks the property *as stated* (a demo on the real tools), '
+           'and strengthened the check for each real miss; the unchanged tree was then re-run on seeds 0-5 and once in the thorough tier.\n',
+           '| property | mutants | pass pinned tests | caught (input) | caught (no input) | survived | survivors breaking the property | now caught | what was missing |',
+           '|---|---|---|---|---|---|---|---|---|']
+    for r in rows:
+        out.append(f"| {r['props']} | {r['generated']} | {r['pass_tests']} | {r['caught_input']} | {r['caught_no_input']} | {r['survived']} | "
+                   f"{r['property_breaking_missed']} | {r['now_caught']} | {r['notes'].replace('|', '/')} |")
+    return '\n'.join(out)
+
 def main():
     t = open(os.path.join(HERE, 'DESIGN.tmpl.md')).read()
-    t = t.replace('@@PER_PROPERTY@@', per_property()).replace('@@FINDINGS@@', findings()).replace('@@SEEDED@@', seeded())
+    t = t.replace('@@PER_PROPERTY@@', per_property()).replace('@@FINDINGS@@', findings()).replace('@@SEEDED@@', seeded() + '\n' + sweeps())
     lines = open(os.path.join(HERE, 'KNOWN_FINDINGS.txt')).read().split('\n')
     nf = sum(1 for l in lines if l.startswith('fixed:'))
     nk = sum(1 for l in lines if l.startswith('known:'))
